@@ -62,10 +62,10 @@ class Workspace:
     def write(self):
         r = self.root
         shutil.rmtree(r, ignore_errors=True)
-        for d in ["app/src/bin", "bp", "diag", "dump", "home", "sdk"]:
+        for d in ["app/src/bin", "bp", "diag", "dump", "home", "sdk", "helper/src"]:
             os.makedirs(os.path.join(r, d))
         names = sorted(self.modules)
-        members = ["app"] + ["sdk/%s" % m for m in names]
+        members = ["app", "helper"] + ["sdk/%s" % m for m in names]
         repo = os.path.realpath(pxvlib.REPO)
         with open(os.path.join(r, "Cargo.toml"), "w") as f:
             f.write("[workspace]\nmembers = %s\nresolver = \"3\"\n[workspace.package]\nedition = \"2024\"\n"
@@ -78,7 +78,14 @@ class Workspace:
         with open(os.path.join(r, "app", "Cargo.toml"), "w") as f:
             f.write("[package]\nname = \"app\"\nversion = \"0.1.0\"\nedition = \"2024\"\n"
                     "[lints.rust.unexpected_cfgs]\nlevel = \"allow\"\ncheck-cfg = [\"cfg(pavex_ide_hint)\"]\n"
-                    "[dependencies]\npavex = { workspace = true }\nserde = { version = \"1\", features = [\"derive\"] }\n")
+                    "[dependencies]\npavex = { workspace = true }\nserde = { version = \"1\", features = [\"derive\"] }\n"
+                    "helper = { path = \"../helper\" }\n")
+        # a second local crate: components whose signatures name `helper::Greeting` make the generated SDK depend on it,
+        # so the set of dependencies of an SDK varies between programs (C10)
+        with open(os.path.join(r, "helper", "Cargo.toml"), "w") as f:
+            f.write("[package]\nname = \"helper\"\nversion = \"0.1.0\"\nedition = \"2024\"\n")
+        with open(os.path.join(r, "helper", "src", "lib.rs"), "w") as f:
+            f.write("pub struct Greeting { pub id: u64 }\n")
         with open(os.path.join(r, "app", "src", "rt.rs"), "w") as f:
             f.write(gen_app.RT_RS)
         with open(os.path.join(r, "app", "src", "lib.rs"), "w") as f:
